@@ -11,9 +11,15 @@
  *                             in line order, with the capture time stamp; its cursor moves on by exactly one frame
  *   h_svc      service step   vbi_proxyd_take_service_req: the device is asked for the union of all clients' requests, is open
  *                             exactly while something is granted, grants are subsets of requests, nobody else's queue moves
- *   h_seq      SEQ            event sequences (capture / writable / disconnect / SERVICE_REQ / device revokes services) from
- *                             a fresh subscription; the event ORDER and the service pattern are concrete (grid), all payload is
- *                             symbolic */
+ *   h_seq      SEQ            event sequences (capture / writable / disconnect / SERVICE_REQ / device revokes services / daemon
+ *                             terminates) from a fresh subscription; the event ORDER and the service pattern are concrete (grid),
+ *                             all payload is symbolic.  The handlers are called as vbi_proxyd_handle_client_sockets calls them
+ *                             (a few lines of that function are replicated per event, with line references)
+ *   h_main     SEQ            the REAL vbi_proxyd_main_loop (get_fd_set, loop body, forward_data, handle_client_sockets: nothing
+ *                             replicated) against a scripted select(): capture / stalled sockets / peer closes / termination
+ * States and runs of the two open defects G (client with frames pending and no service granted is not counted for a new frame) and
+ * K (closing the device frees the queue under the clients' cursors) are split off by GSTATE / KSTATE and own schedules, so that all
+ * other instances are decided independently of them. */
 #include "verif.h"
 #include "c19_io.h"
 #include <stdlib.h>
@@ -32,55 +38,48 @@ void *memcpy(void *dst, const void *src, size_t n)
 }
 #endif
 
+#ifdef VERIF_CBMC
+#include <pthread.h>
+/* vbi_proxyd_destroy destroys the (never used: no acquisition thread) start condition of every device; cbmc 6 flags a call without body */
+int pthread_cond_destroy(pthread_cond_t *c) { (void) c; return 0; }
+#endif
+
 #define vbi_proxy_msg_logger c19_real_msg_logger
 #include "src/proxy-msg.c"
 #undef vbi_proxy_msg_logger
 void vbi_proxy_msg_logger(int level, int clnt_fd, int errCode, const char *pText, ...)
 { (void) level; (void) clnt_fd; (void) errCode; (void) pText; }
 
-/* The sliced indication is allocated with its actual size (24 + 64 n bytes) and filled through a VBIPROXY_MSG pointer (992 byte
- * type).  CBMC checks `p_msg->body' (984 bytes) as a whole against the object and reports "pointer outside object bounds"; in
- * cbmc 6 that check is FATAL: every later property comes back UNKNOWN (this is what made the first version of seq_schedule
- * undecided).  Solver build only: while the harness is inside vbi_proxyd_send_sliced (C18_in_send) a message buffer is allocated
- * with the size of the TYPE, the size the daemon asked for is recorded, and the 8 bytes behind it carry a guard pattern that the
- * delivery step checks (so a line written behind the allocation is still found).  The native replay build uses the real
- * malloc under ASan. */
+/* Allocation model (solver build only; the native replay build uses the real malloc under ASan).  Every malloc() of daemon/proxyd.c and of the world
+ * construction in h_c19_common.h goes through c18_malloc, which hands out TYPED objects:
+ *  - frame buffers: the daemon allocates QUEUE_ELEM_SIZE(q, n) = sizeof(PROXY_QUEUE) + 64 (n - 1) bytes.  CBMC makes that an untyped byte array
+ *    (the size is no plain sizeof): list pointer, reference count and line count are then read back through byte_extract over WITH-chains,
+ *    no list walk has a concrete trip count any more and pointers are bit-blasted out of bytes (service_step from a closed device: no verdict
+ *    in 200 s / 7 GB).  c18_malloc returns a typed object for 0 lines (first open) and 1 line (PROXY_QUEUE itself); for W_MAXLINES > 1 only with
+ *    C18_TYPED_QN (capture steps: they never index lines[k >= 1] through the PROXY_QUEUE type, see struct c18_qn), else the byte array
+ *    (delivery_step: one delivery, bearable).
+ *  - the sliced indication is allocated with its actual size (24 + 64 n bytes) and filled through a VBIPROXY_MSG pointer (992 byte type).  CBMC
+ *    checks `p_msg->body' (984 bytes) as a whole against the object and reports "pointer outside object bounds"; in cbmc 6 that check is FATAL:
+ *    every later property comes back UNKNOWN.  An allocation of 24 + 64 n bytes (no frame buffer has such a size: they are 40 + 64 n) is an object of the
+ *    size of the TYPE, a struct with the layout of a sliced indication (header, time stamp, counters, C18_MSGCAP line slots): an untyped byte array
+ *    of 1000 bytes made the line counter the daemon keeps in the message - hence the message length, the result of send() and the trip count of the
+ *    delivery loop - symbolic (seq_schedule, two frames: 247 000 symex steps, 61 s, 2.2 GB; typed: 30 000 steps, 9 s, 130 MB).  The size the daemon
+ *    asked for is recorded; the line slot behind it carries a guard pattern that the delivery step checks (so a line written behind the
+ *    allocation is still found). */
 #ifdef VERIF_CBMC
-static int C18_in_send; static size_t C18_msg_asked; static uint8_t *C18_msg_obj;
-#define C18_GUARD 0xA5
-static void *c18_malloc(size_t n)
-{
-  if (C18_in_send) {
-    uint8_t *p = malloc(sizeof(VBIPROXY_MSG) + 8);
-    unsigned i;
-    C18_msg_asked = n; C18_msg_obj = p;
-    __CPROVER_assert(n + 8 <= sizeof(VBIPROXY_MSG) + 8, "VP:msg_alloc_within_model_bound");
-    for (i = 0; i < 8; i++) p[n + i] = C18_GUARD;
-    return p;
-  }
-  return malloc(n);
-}
-static int c18_guard_ok(void)
-{
-  unsigned i; int ok = 1;
-  for (i = 0; i < 8; i++) ok &= C18_msg_obj[C18_msg_asked + i] == C18_GUARD;
-  return ok;
-}
-#define C18_SEND_BEGIN() (C18_in_send = 1)
-#define C18_SEND_END() (C18_in_send = 0)
+static void *c18_malloc(size_t n);
+static int C18_send_flag;             /* set by the harness around its own calls of vbi_proxyd_send_sliced (delivery_step: the size asked for is symbolic there) */
+#define C18_SEND_BEGIN() (C18_send_flag = 1)
+#define C18_SEND_END() (C18_send_flag = 0)
 #define malloc(n) c18_malloc(n)
 #else
 #define C18_SEND_BEGIN() ((void) 0)
 #define C18_SEND_END() ((void) 0)
-static int c18_guard_ok(void) { return 1; }
 #endif
 
 #define main proxyd_main
 #include "daemon/proxyd.c"
 #undef main
-#ifdef VERIF_CBMC
-#undef malloc
-#endif
 
 #ifndef W_MAXLINES
 #define W_MAXLINES 3
@@ -89,6 +88,78 @@ static int c18_guard_ok(void) { return 1; }
 #define W_NBUF 3
 #endif
 #include "h_c19_common.h"
+
+#ifdef VERIF_CBMC
+#undef malloc
+#ifndef C18_MSGCAP
+#define C18_MSGCAP 4                         /* line slots of the model message: W_MAXLINES + 1 guard slot at least */
+#endif
+struct c18_msgobj {
+  VBIPROXY_MSG_HEADER head; double timestamp; uint32_t sliced_lines, raw_lines; vbi_sliced sliced[C18_MSGCAP];
+  uint8_t pad[sizeof(VBIPROXY_MSG) - sizeof(VBIPROXY_MSG_HEADER) - 16 - C18_MSGCAP * sizeof(vbi_sliced)];
+};
+struct c18_q0 { struct PROXY_QUEUE_s *p_next; unsigned int ref_count, use_count; int max_lines, line_count; double timestamp; void *p_raw_data; };   /* PROXY_QUEUE without lines[] */
+#if W_MAXLINES > 1
+/* flat layout (not { PROXY_QUEUE q; vbi_sliced more[]; }: through the prefix type `q.lines[1]' is an index into a one-element member array, which
+   CBMC neither checks (last member: flexible array idiom) nor resolves - the write is lost, the read is unconstrained) */
+struct c18_qn { struct PROXY_QUEUE_s *p_next; unsigned int ref_count, use_count; int max_lines, line_count; double timestamp; void *p_raw_data; vbi_sliced lines[W_MAXLINES]; };
+#endif
+static size_t C18_msg_asked; static struct c18_msgobj *C18_msg_obj;
+#define C18_GUARD 0xA5
+static uint8_t *C18_msg_bytes;
+static void *c18_malloc(size_t n)
+{
+  int C18_in_send = C18_send_flag || (n >= 24 && (n - 24) % 64 == 0);      /* a sliced indication of (n - 24) / 64 lines (the main loop calls send_sliced itself) */
+#ifdef C18_MSG_BYTES
+  /* delivery_step: the line slot the daemon writes is selected by a SYMBOLIC counter (the services are symbolic).  Byte stores at a symbolic offset into
+     the typed message object are not all read back by cbmc 6.11 (unconfirmed counterexample: the 9th byte of the second line kept its initial value), so
+     this obligation uses an untyped byte array of the size of the type with 8 guard bytes behind the size asked for (one send only: the cost is bearable) */
+  if (C18_in_send) {
+    uint8_t *p = malloc(sizeof(VBIPROXY_MSG) + 8); unsigned i;
+    C18_msg_asked = n; C18_msg_bytes = p;
+    __CPROVER_assert(n + 8 <= sizeof(VBIPROXY_MSG) + 8, "VP:msg_alloc_within_model_bound");
+    for (i = 0; i < 8; i++) p[n + i] = C18_GUARD;
+    return p;
+  }
+#endif
+  if (C18_in_send) {
+    struct c18_msgobj *p = malloc(sizeof(struct c18_msgobj));
+    unsigned k, b;
+    C18_msg_asked = n; C18_msg_obj = p;
+    __CPROVER_assert(sizeof(struct c18_msgobj) == sizeof(VBIPROXY_MSG), "VP:msg_model_object_has_the_size_of_the_type");
+    __CPROVER_assert(n >= 24 && (n - 24) % 64 == 0 && (n - 24) / 64 < C18_MSGCAP, "VP:msg_alloc_within_model_bound");
+    for (k = 0; k < C18_MSGCAP; k++)
+      if (k == (n - 24) / 64) { p->sliced[k].id = 0xA5A5A5A5u; p->sliced[k].line = 0xA5A5A5A5u; for (b = 0; b < 56; b++) p->sliced[k].data[b] = C18_GUARD; }
+    return p;
+  }
+  __CPROVER_assert(sizeof(struct c18_q0) == QUEUE_ELEM_SIZE(0, 0), "VP:queue_model_object_0_lines");
+#if W_MAXLINES > 1
+  __CPROVER_assert(sizeof(struct c18_qn) == QUEUE_ELEM_SIZE(0, W_MAXLINES), "VP:queue_model_object_n_lines");
+#endif
+  if (n == sizeof(struct c18_q0)) return malloc(sizeof(struct c18_q0));
+  if (n == sizeof(PROXY_QUEUE)) return malloc(sizeof(PROXY_QUEUE));
+#if W_MAXLINES > 1 && defined(C18_TYPED_QN)
+  if (n == sizeof(struct c18_qn)) return malloc(sizeof(struct c18_qn));
+#endif
+  return malloc(n);
+}
+static int c18_guard_ok(void)
+{
+  unsigned k, b; int ok = 1;
+#ifdef C18_MSG_BYTES
+  for (b = 0; b < 8; b++) ok &= C18_msg_bytes[C18_msg_asked + b] == C18_GUARD;
+  return ok;
+#endif
+  for (k = 0; k < C18_MSGCAP; k++)
+    if (k == (C18_msg_asked - 24) / 64) {
+      ok &= C18_msg_obj->sliced[k].id == 0xA5A5A5A5u && C18_msg_obj->sliced[k].line == 0xA5A5A5A5u;
+      for (b = 0; b < 56; b++) ok &= C18_msg_obj->sliced[k].data[b] == C18_GUARD;
+    }
+  return ok;
+}
+#else
+static int c18_guard_ok(void) { return 1; }
+#endif
 
 #ifndef DEVOPEN
 #define DEVOPEN 1
@@ -138,6 +209,8 @@ static void w_fill_frames(void)
 static int subscribed(const PROXY_CLNT *c) { return c->dev_idx == 0 && c->state == REQ_STATE_FORWARD && c->all_services != 0; }
 static int takes_new_frame(const PROXY_CLNT *c) { return c->dev_idx == 0 && c->state == REQ_STATE_FORWARD && (c->all_services != 0 || c->p_sliced != NULL); }
 
+static int revoked_with_frames_pending(const PROXY_CLNT *c) { return c->dev_idx == 0 && c->state == REQ_STATE_FORWARD && c->all_services == 0 && c->p_sliced != NULL; }
+
 /* Q plus: a closed device has no queue, so no client of it may still hold a cursor (the buffers are freed) */
 static int inv18(void)
 {
@@ -166,6 +239,12 @@ V_HARNESS(h_fwd)
   w_queue();
   w_frame();
   w_assume_inv();
+  /* GSTATE 0: every client with frames pending is still granted something (the only states the daemon reaches while the device answers every
+     re-computation the same way); GSTATE 1: at least one client lost all its services in a re-computation caused by somebody else while frames were
+     pending for it (reached by seq_revoke[REVOKE=1] (1,7): norm change / conflicting request between two re-computations); undefined: both */
+#ifdef GSTATE
+  { int n_rev = 0; for (i = 0; i < NCL; i++) n_rev += revoked_with_frames_pending(W_cl[i]); V_ASSUME(GSTATE ? n_rev > 0 : n_rev == 0); }
+#endif
   for (i = 0; i < NCL; i++) { obs_clnt(&o0[i], W_cl[i]); if (takes_new_frame(W_cl[i])) nref++; }
   for (k = 0, p = d->p_sliced; k < 4; k++) { q_old[k] = p; if (p) { ns0 = k + 1; p = p->p_next; } }
   forced = (d->p_free == NULL);                                         /* no free buffer: the oldest frame is dropped by force */
@@ -220,12 +299,14 @@ V_HARNESS(h_fwd)
 V_HARNESS(h_deliver)
 {
   PROXY_DEV *d = &proxy.dev[0]; PROXY_CLNT *a; PROXY_QUEUE *f, *nxt; struct clnt_obs o0[3], o1[3];
-  unsigned i, k, m, n_sel = 0; int sel[W_MAXLINES]; vbi_bool blocked = FALSE, ok; uint32_t ref0, len_exp; uint8_t fr0[W_MAXLINES][64]; uint64_t ts0;
+  unsigned i, k, m, n_sel = 0; int sel[W_MAXLINES], pos0; vbi_bool blocked = FALSE, ok; uint32_t ref0, len_exp; uint8_t fr0[W_MAXLINES][64]; uint64_t ts0;
   V_INIT();
   w_init();
   w_device(1);
   w_fill_frames();
   for (i = 0; i < NCL; i++) w_client(0, 0);
+  W_cl[ACT]->state = REQ_STATE_FORWARD;           /* before the queue is built: the acting client's cursor is then a constant pointer (it selects the frame whose
+                                                     line count bounds the daemon's filter loop; behind a symbolic state it was NULL-or-frame and the loop ran to the unwind bound) */
   w_link();
   w_queue();
   w_assume_inv();
@@ -235,6 +316,7 @@ V_HARNESS(h_deliver)
   a->all_services &= ~(unsigned) (VBI_SLICED_VBI_625 | VBI_SLICED_VBI_525);   /* no raw forwarding (masked, not assumed: the message size must fold to a constant) */
   V_ASSUME(a->vbi_count[0] >= 0 && a->vbi_count[0] <= 64 && a->vbi_count[1] >= 0 && a->vbi_count[1] <= 64 && a->vbi_count[0] + a->vbi_count[1] >= W_MAXLINES);   /* line range fixed at subscription covers the device's */
   f = a->p_sliced; nxt = f->p_next; ref0 = f->ref_count;
+  for (pos0 = 0; pos0 < 4 && !q_pos_is(d->p_sliced, f, pos0); pos0++) ;                  /* position of the frame in the queue (stays if others still need it) */
   f->line_count = LC;
   memcpy(&ts0, &f->timestamp, 8);
   for (k = 0; k < W_MAXLINES; k++) memcpy(fr0[k], &f->lines[k], 64);
@@ -284,7 +366,7 @@ V_HARNESS(h_deliver)
     if (i != ACT) V_ASSERT(same_clnt(&o0[i], &o1[i]), "send_other_clients_untouched");
   }
   V_ASSERT(o1[ACT].all_services == o0[ACT].all_services && o1[ACT].state == o0[ACT].state, "send_own_subscription_untouched");
-  if (ref0 > 1) { V_ASSERT(f->ref_count == ref0 - 1 && q_pos_is(d->p_sliced, f, 0), "send_frame_kept_for_others"); V_REACH("shared"); }
+  if (ref0 > 1) { V_ASSERT(f->ref_count == ref0 - 1 && q_pos_is(d->p_sliced, f, pos0) && f->p_next == nxt, "send_frame_kept_for_others"); V_REACH("shared"); }
   else { V_ASSERT(d->p_free == f && d->p_sliced == nxt, "send_last_reader_frees_frame"); V_REACH("freed"); }
   V_ASSERT(inv18(), "send_inv_queue");
   if (n_sel > 0 && n_sel < (unsigned) LC) V_REACH("filtered");
@@ -308,11 +390,14 @@ V_HARNESS(h_deliver)
 V_HARNESS(h_svc)
 {
   PROXY_DEV *d = &proxy.dev[0]; PROXY_CLNT *a; struct clnt_obs o0[3], o1[3]; struct env_obs e0, e1;
-  unsigned i, k, new_services, asked_union = 0, grant_union = 0, own_asked = 0; vbi_bool r; int was_open;
+  unsigned i, k, new_services, asked_union = 0, grant_union = 0, own_asked = 0, own_after = 0; vbi_bool r; int was_open;
   static char errbuf[VBIPROXY_ERROR_STR_MAX_LENGTH];
   V_INIT();
   w_init();
   w_device(DEVOPEN);
+#if !DEVOPEN && defined(PREVLINES)
+  d->max_lines = PREVLINES;       /* line count of the last time the device was open (never reset by the daemon); 0: first open - the buffers allocated while opening have no line */
+#endif
   for (i = 0; i < NCL; i++) w_client((i != ACT && i == NCL - 1) ? BDEV : 0, 0);
   w_link();
   w_queue();
@@ -333,13 +418,26 @@ V_HARNESS(h_svc)
 
   obs_env(&e1);
   for (i = 0; i < NCL; i++) obs_clnt(&o1[i], W_cl[i]);
+  /* KSTATE 0: runs in which the device is closed while another client still has frames pending are left out (nothing is granted to anybody any more
+     although that client was granted something when its frames were captured: the device changed an earlier answer, seq_revoke[REVOKE=1] (1,2,1,5));
+     KSTATE 1: only those runs; undefined: all runs */
+#ifdef KSTATE
+  { int k_run = 0; for (i = 0; i < NCL; i++) if (i != ACT && o0[i].p_sliced != NULL) k_run = 1;
+    k_run = k_run && was_open && d->p_capture == NULL;
+    V_ASSUME(KSTATE ? k_run : !k_run); if (k_run) V_REACH("closed_with_cursor"); }
+#endif
   /* the request table of the acting client: the new services moved to the given level, nothing else changed; after the grant
      the level holds no more than what was asked */
   for (k = 0; k < 4; k++) {
-    if ((int) k == STRICTV - VBI_MIN_STRICT) V_ASSERT((o1[ACT].services[k] & ~(o0[ACT].services[k] | new_services)) == 0, "svc_request_level");
-    else V_ASSERT(o1[ACT].services[k] == (o0[ACT].services[k] & ~new_services), "svc_request_moved_from_other_levels");
-    own_asked |= (k == (unsigned) (STRICTV - VBI_MIN_STRICT)) ? (o0[ACT].services[k] | new_services) : (o0[ACT].services[k] & ~new_services);
+    unsigned asked_k = (k == (unsigned) (STRICTV - VBI_MIN_STRICT)) ? (o0[ACT].services[k] | new_services) : (o0[ACT].services[k] & ~new_services);
+    /* what stays recorded at a level is what was asked for there, narrowed to what the device granted (proxyd.c:1102-1105: the table of the
+       REQUESTING client is masked with the grants); never a service that was not asked for at that level */
+    if ((int) k == STRICTV - VBI_MIN_STRICT) V_ASSERT((o1[ACT].services[k] & ~asked_k) == 0, "svc_request_level");
+    else V_ASSERT((o1[ACT].services[k] & ~asked_k) == 0, "svc_request_moved_from_other_levels");
+    own_asked |= asked_k; own_after |= o1[ACT].services[k];
   }
+  /* a re-computation ran (the device is or was open): the requester is granted exactly what stays recorded in its table */
+  if (d->p_capture != NULL || was_open) V_ASSERT(o1[ACT].all_services == own_after, "svc_own_grant_is_what_stays_recorded");
   for (i = 0; i < NCL; i++) {
     unsigned asked = 0;
     if (i == ACT) asked = own_asked; else for (k = 0; k < 4; k++) asked |= o0[i].services[k];
@@ -382,6 +480,7 @@ V_HARNESS(h_svc)
  *   2/3/8 client 0/1/2 writable -> what vbi_proxyd_handle_client_sockets does for a writable socket (proxyd.c:2437-2499)
  *   4/5  client 0/1 disconnects -> vbi_proxyd_close + unlink + service re-computation (proxyd.c:2520-2547)
  *   6/7  client 0/1 sends SERVICE_REQ(reset, SREQ, strict 0)        -> vbi_proxyd_take_message
+ *   10   the daemon is told to terminate                            -> vbi_proxyd_destroy
  * Shadow model: per client the list of frames not yet delivered: a frame is appended for the clients that are subscribed (or
  * still have frames pending) when it is captured; when the daemon has no free buffer the oldest frame is given up by the clients
  * still waiting for it; a SERVICE_REQ drops the sender's own list; the closing of the device drops all lists.
@@ -574,16 +673,36 @@ static void sq_service_req(unsigned c)
   V_ASSERT(C19.send_calls == s0, "seq_request_sends_nothing_yet");
 }
 
+/* event 10: the daemon is told to terminate (SIGTERM/SIGINT: vbi_proxyd_signal_handler sets proxy.should_exit, vbi_proxyd_main_loop returns,
+ * main() calls vbi_proxyd_destroy): devices are closed, then every connection.  Nothing is sent, nothing freed is touched again. */
+static void sq_shutdown(void)
+{
+  unsigned c, i, s0 = C19.send_calls; static const char path[] = "/tmp/c18-no-such-socket";
+  for (i = 0; i < 2; i++) {                                /* as vbi_proxyd_add_device left it: a malloc'ed socket path */
+    char *sp = malloc(sizeof path); unsigned b;
+    for (b = 0; b < sizeof path; b++) sp[b] = path[b];
+    proxy.dev[i].p_sock_path = sp;
+  }
+  vbi_proxyd_destroy();
+  for (c = 0; c < NCL; c++) { W_gone[c] = 1; SQ_conn[c] = 0; SQ_np[c] = 0; }
+  V_ASSERT(!c19_device_is_open() && proxy.dev[0].p_capture == NULL && proxy.p_clnts == NULL && proxy.clnt_count == 0, "seq_shutdown_closes_device_and_connections");
+  V_ASSERT(C19.send_calls == s0, "seq_shutdown_sends_nothing");
+  V_REACH("shutdown");
+}
+
 static void sq_event(int e)
 {
   unsigned c;
   if (e == 0) return;
+  if (e == 10) sq_shutdown(); else
   if (e == 1) sq_capture(1); else if (e == 9) sq_capture(0);
   else if (e == 2) sq_writable(0); else if (e == 3) sq_writable(1); else if (e == 8) sq_writable(2);
   else if (e == 4) sq_disconnect(0); else if (e == 5) sq_disconnect(1);
   else if (e == 6) sq_service_req(0); else if (e == 7) sq_service_req(1);
   V_ASSERT(inv18(), "seq_inv_queue");
   V_ASSERT(c19_locks_held() == 0, "seq_no_lock_left_held");
+  { int any = 0; for (c = 0; c < NCL; c++) if (SQ_conn[c] && W_cl[c]->all_services != 0) any = 1;
+    V_ASSERT((proxy.dev[0].p_capture != NULL) == any && c19_device_is_open() == any, "seq_device_open_iff_a_client_is_granted_a_service"); }
   /* shadow and daemon agree on who has something pending */
   for (c = 0; c < NCL; c++) if (SQ_conn[c]) V_ASSERT((W_cl[c]->p_sliced != NULL) == (SQ_np[c] > 0), "seq_pending_agrees_with_shadow");
 }
@@ -611,5 +730,225 @@ V_HARNESS(h_seq)
   w_link();
   w_queue();                                                                /* NQ = 0: nothing queued, all buffers free */
   sq_event(E0); sq_event(E1); sq_event(E2); sq_event(E3); sq_event(E4); sq_event(E5); sq_event(E6); sq_event(E7);
+  V_END();
+}
+
+/* =====================================================================================================
+ * SEQ through the REAL main loop: vbi_proxyd_main_loop() runs against a scripted select() (defined here: it sees the daemon's
+ * statics) - vbi_proxyd_get_fd_set, the dispatch in the loop body, vbi_proxyd_forward_data and the whole of
+ * vbi_proxyd_handle_client_sockets are the daemon's own code, nothing of them is replicated.  One loop iteration per schedule entry
+ * M0..M7 (build time, 0 ends the run: select() fails with EINTR after setting proxy.should_exit, as the signal handler does):
+ *   bit 0     the device has a frame (symbolic payload and time stamp)
+ *   bit 1     plain wake-up (sockets writable only)
+ *   bit 4+c   client c is stalled in this iteration: its socket is not writable and send() fails with EAGAIN
+ *   bit 8+c   client c's socket is readable and recv() returns 0 (peer closed the connection)
+ * "Stalled" is what it is for the daemon: handle_client_sockets offers every queued frame to every idle client in every iteration;
+ * a socket that takes nothing leaves ONE message in the client's write buffer, the other frames stay queued.
+ * Shadow model per client: frames pending in the queue, the message in flight.  Checked at every select() call (i.e. after every
+ * iteration): the messages accepted by send() since the last call are, client by client in list order, the message in flight and then
+ * the pending frames in capture order, each exactly once, filtered, with the capture time stamp; refused attempts only for stalled
+ * clients; queue invariant; the select set: device watched, every connection watched for writing iff something is pending for it.
+ * ===================================================================================================== */
+#ifndef M0
+#define M0 1
+#endif
+#ifndef M1
+#define M1 0
+#endif
+#ifndef M2
+#define M2 0
+#endif
+#ifndef M3
+#define M3 0
+#endif
+#ifndef M4
+#define M4 0
+#endif
+#ifndef M5
+#define M5 0
+#endif
+#ifndef M6
+#define M6 0
+#endif
+#ifndef M7
+#define M7 0
+#endif
+#ifndef MDESTROY
+#define MDESTROY 0      /* 1: main() goes on with vbi_proxyd_destroy() after the loop */
+#endif
+static int w_in_list18(const PROXY_CLNT *c);
+static const int MS_sched[9] = { M0, M1, M2, M3, M4, M5, M6, M7, 0 };
+static unsigned MS_it, MS_log0; static int MS_active;
+static int MS_infl[3];                                     /* frame index in the client's write buffer (refused by the socket), -1: none */
+static int MS_exp_c[16], MS_exp_f[16]; static unsigned MS_nexp;  /* accepted messages expected from the iteration that just ran */
+static int MS_blocked[3];
+
+static void ms_check_iteration(void)
+{
+  unsigned q, e = 0, c, k;
+  if (proxy.dev[0].p_capture == NULL) sq_drop_all();                         /* the device was closed: its queue is gone (what is in a write buffer stays) */
+  V_ASSERT(C19.send_calls <= C19_SENDLOG, "main_send_log_long_enough");
+  for (q = 0; q < C19_SENDLOG; q++) {
+    const struct c19_sendrec *r = &C19.sent[q]; unsigned m;
+    if (q < MS_log0 || q >= C19.send_calls) continue;
+    if (r->ret < 0) {                                                        /* refused: only a stalled client's socket does that */
+      int ok = 0; for (c = 0; c < NCL; c++) ok |= (MS_blocked[c] && r->fd == 10 + (int) c);
+      V_ASSERT(ok, "main_only_stalled_sockets_refuse");
+      continue;
+    }
+    V_ASSERT(e < MS_nexp, "main_nothing_sent_but_the_expected_frames");
+    for (m = 0; m < 16; m++) {
+      const struct sq_frame *f; unsigned nsel = 0; uint64_t ts; uint32_t nl, nr; unsigned svc = 0;
+      if (m != e || m >= MS_nexp) continue;
+      f = &SQ_fr[MS_exp_f[m]];
+      for (c = 0; c < NCL; c++) if (MS_exp_c[m] == (int) c) svc = W_cl[c]->all_services;
+      V_ASSERT(r->fd == 10 + MS_exp_c[m], "main_sent_in_list_order_to_the_right_socket");
+      memcpy(&ts, r->bytes + 8, 8); memcpy(&nl, r->bytes + 16, 4); memcpy(&nr, r->bytes + 20, 4);
+      V_ASSERT(be32(r->bytes + 4) == MSG_TYPE_SLICED_IND && ts == f->ts, "main_capture_order_and_timestamp");
+      for (k = 0; k < W_MAXLINES; k++)
+        if ((int) k < f->n && (f->id[k] & svc) != 0) { V_ASSERT(0 == memcmp(r->bytes + 24 + 64 * nsel, f->data[k], 64), "main_granted_lines_in_order"); nsel++; }
+      V_ASSERT(nl == nsel && nr == 0 && be32(r->bytes) == 24 + 64 * nsel && r->len_asked == 24 + 64 * nsel && r->ret == (int32_t) (24 + 64 * nsel), "main_only_granted_lines");
+      V_REACH("delivered");
+    }
+    e++;
+  }
+  V_ASSERT(e == MS_nexp, "main_every_expected_frame_sent_once");
+  V_ASSERT(inv18(), "main_inv_queue");
+  V_ASSERT(c19_locks_held() == 0, "main_no_lock_left_held");
+  for (c = 0; c < NCL; c++)
+    if (SQ_conn[c]) {
+      V_ASSERT((W_cl[c]->p_sliced != NULL) == (SQ_np[c] > 0), "main_pending_agrees_with_shadow");
+      V_ASSERT((W_cl[c]->io.writeLen != 0) == (MS_infl[c] >= 0), "main_in_flight_agrees_with_shadow");
+    } else V_ASSERT(!w_in_list18(W_cl[c]), "main_closed_connection_unlinked");
+  { int any = 0; for (c = 0; c < NCL; c++) if (SQ_conn[c] && W_cl[c]->all_services != 0) any = 1;
+    V_ASSERT((proxy.dev[0].p_capture != NULL) == any && c19_device_is_open() == any, "main_device_open_iff_a_client_is_granted_a_service"); }
+  MS_log0 = C19.send_calls; MS_nexp = 0;
+}
+
+/* the environment decides the next iteration: shadow update + scripts for recv()/send() in the order the daemon will call them */
+static void ms_plan_iteration(int ev, fd_set *rd, fd_set *wr)
+{
+  unsigned c, i, k = C19.send_calls, rk = C19.recv_calls, has_free; int have_frame = (ev & 1) && proxy.dev[0].p_capture != NULL;
+  /* ---- what select() reports ---- */
+  for (i = 0; i < 2; i++) FD_CLR(proxy.dev[i].pipe_fd, rd);                    /* no new connections */
+  if (proxy.dev[0].vbi_fd != -1) { V_ASSERT(FD_ISSET(proxy.dev[0].vbi_fd, rd), "main_open_device_is_watched"); if (!have_frame) FD_CLR(proxy.dev[0].vbi_fd, rd); }
+  for (c = 0; c < NCL; c++) {
+    int fd = 10 + (int) c, eof = (ev >> (8 + c)) & 1;
+    MS_blocked[c] = (ev >> (4 + c)) & 1;
+    if (!SQ_conn[c]) continue;
+    V_ASSERT(FD_ISSET(fd, rd) != FD_ISSET(fd, wr), "main_every_connection_watched_one_way");
+    V_ASSERT(FD_ISSET(fd, wr) == (SQ_np[c] > 0 || MS_infl[c] >= 0), "main_watched_for_writing_iff_something_pending");
+    if (MS_blocked[c]) FD_CLR(fd, wr);
+    if (!(eof && FD_ISSET(fd, rd))) FD_CLR(fd, rd);
+  }
+  /* ---- the frame ---- */
+  if (have_frame) {
+    struct sq_frame *f = &SQ_fr[SQ_nf]; static const uint32_t lid[3] = { LID0, LID1, LID2 };
+    w_frame();
+    C19.frame_ret = 1; C19.frame_lines = W_MAXLINES;
+    for (i = 0; i < W_MAXLINES; i++) {
+      C19.frame_data[i][0] = (uint8_t) lid[i % 3]; C19.frame_data[i][1] = (uint8_t) (lid[i % 3] >> 8);
+      C19.frame_data[i][2] = (uint8_t) (lid[i % 3] >> 16); C19.frame_data[i][3] = (uint8_t) (lid[i % 3] >> 24);
+    }
+    f->n = W_MAXLINES; f->ts = dbl_bits(C19.frame_ts);
+    for (i = 0; i < W_MAXLINES; i++) { unsigned b; for (b = 0; b < 64; b++) f->data[i][b] = C19.frame_data[i][b]; f->id[i] = lid[i % 3]; }
+    has_free = proxy.dev[0].p_free != NULL;
+    if (!has_free) {                                                           /* out of buffers: the oldest queued frame is given up by the clients still waiting for it */
+      int oldest = -1;
+      for (c = 0; c < NCL; c++) if (SQ_conn[c] && SQ_np[c] > 0 && (oldest < 0 || SQ_pend[c][0] < oldest)) oldest = SQ_pend[c][0];
+      for (c = 0; c < NCL; c++)
+        if (SQ_conn[c] && SQ_np[c] > 0 && SQ_pend[c][0] == oldest) { for (i = 1; i < SQ_np[c]; i++) SQ_pend[c][i - 1] = SQ_pend[c][i]; SQ_np[c]--; V_REACH("overflow"); }
+    }
+    for (c = 0; c < NCL; c++) if (SQ_conn[c] && (W_cl[c]->all_services != 0 || SQ_np[c] > 0)) SQ_pend[c][SQ_np[c]++] = (int) SQ_nf;
+    SQ_nf++;
+  }
+  /* ---- the clients, in list order: recv()/send() scripts and the messages that will be accepted ---- */
+  for (c = 0; c < NCL; c++) {
+    int fd = 10 + (int) c;
+    if (!SQ_conn[c]) continue;
+    if (FD_ISSET(fd, rd)) {                                                   /* peer closed: recv() returns 0, the connection is dropped with everything queued for it */
+      for (i = 0; i < C19_NIO; i++) if (i == rk) C19.recv_ret[i] = 0;
+      rk++;
+      SQ_conn[c] = 0; SQ_np[c] = 0; MS_infl[c] = -1; W_gone[c] = 1;
+      V_REACH("peer_closed");
+      continue;
+    }
+    if (MS_blocked[c]) {                                                      /* one refused attempt if it is idle and a frame is queued: that frame is then in flight */
+      if (MS_infl[c] < 0 && SQ_np[c] > 0) {
+        for (i = 0; i < C19_NIO; i++) if (i == k) { C19.send_ret[i] = -1; C19.send_err[i] = 0; }
+        k++;
+        MS_infl[c] = SQ_pend[c][0]; for (i = 1; i < SQ_np[c]; i++) SQ_pend[c][i - 1] = SQ_pend[c][i]; SQ_np[c]--;
+        V_REACH("stalled");
+      }
+      continue;
+    }
+    if (MS_infl[c] >= 0) { MS_exp_c[MS_nexp] = (int) c; MS_exp_f[MS_nexp] = MS_infl[c]; MS_nexp++; MS_infl[c] = -1;
+                           for (i = 0; i < C19_NIO; i++) if (i == k) C19.send_ret[i] = 0x7fffffff; k++; V_REACH("resumed"); }
+    for (i = 0; i < SQ_F; i++)
+      if (i < SQ_np[c]) { MS_exp_c[MS_nexp] = (int) c; MS_exp_f[MS_nexp] = SQ_pend[c][i]; MS_nexp++;
+                          { unsigned j; for (j = 0; j < C19_NIO; j++) if (j == k) C19.send_ret[j] = 0x7fffffff; } k++; }
+    SQ_np[c] = 0;
+  }
+  V_ASSERT(k <= C19_NIO && rk <= C19_NIO && MS_nexp <= 16, "main_script_long_enough");
+}
+
+static int w_in_list18(const PROXY_CLNT *c)
+{
+  const PROXY_CLNT *p = proxy.p_clnts; unsigned k;
+  for (k = 0; k < 3; k++) { if (p == NULL) return 0; if (p == c) return 1; p = p->p_next; }
+  return 0;
+}
+
+/* select() as the main loop sees it (only h_main runs the loop; the native build links this definition instead of libc's) */
+int select(int nfds, fd_set *rd, fd_set *wr, fd_set *ex, struct timeval *tv)
+{
+  int ev;
+  (void) nfds; (void) ex; (void) tv;
+  if (!MS_active) { errno = EINTR; return -1; }
+  if (MS_it > 0) {
+    ms_check_iteration();
+  }
+  ev = MS_sched[MS_it];
+  if (ev == 0) { proxy.should_exit = TRUE; errno = EINTR; return -1; }      /* SIGTERM / SIGINT */
+  MS_it++;
+  ms_plan_iteration(ev, rd, wr);
+  return 1;
+}
+
+V_HARNESS(h_main)
+{
+  unsigned i; static const unsigned svc[3] = { SVC0, SVC1, SVC2 }; PROXY_DEV *d = &proxy.dev[0];
+  V_INIT();
+  w_init();
+  for (i = 0; i < C19_NIO; i++) { C19.send_ret[i] = 0x7fffffff; C19.send_err[i] = 0; C19.recv_ret[i] = -1; C19.recv_err[i] = 0; }
+  for (i = 0; i < C19_NUPD; i++) { C19.grant_mask[i] = ((REVOKE >> i) & 1) ? 0 : 0xffffffffu; C19.grant_err[i] = 0; }
+  C19.dec_scanning = 625; C19.cap_fd = 9; C19.cap_scanning = 625; C19.open_v4l2_ok = 1; C19.has_decoder = 1; C19.ioctl_ret = 0;
+  C19.stream = (const uint8_t *) ""; C19.stream_len = 0;
+  w_device(1);
+  d->scanning = 625; d->chn_prio = VBI_CHN_PRIO_INTERACTIVE; d->vbi_api = VBI_API_V4L2; d->all_services = 0; d->vbi_fd = 9;
+  for (i = 0; i < NCL; i++) {
+    PROXY_CLNT *c = calloc(1, sizeof *c);
+    c->state = REQ_STATE_FORWARD; c->io.sock_fd = 10 + (int) i; c->io.lastIoTime = (time_t) in_u32();
+    c->dev_idx = 0; c->services[0 - VBI_MIN_STRICT] = svc[i]; c->all_services = svc[i];
+    c->vbi_start[0] = 7; c->vbi_count[0] = 1; c->vbi_start[1] = 320; c->vbi_count[1] = W_MAXLINES - 1;
+    c->buffer_count = W_CLBUF; c->chn_prio = DEFAULT_CHN_PRIO;
+    d->all_services |= svc[i];
+    W_cl[W_ncl++] = c; SQ_conn[i] = 1; MS_infl[i] = -1;
+  }
+  w_link();
+  w_queue();
+  proxy.max_conn = 0; proxy.should_exit = FALSE; proxy.chn_sched_alarm = FALSE;
+  MS_active = 1; MS_it = 0; MS_log0 = 0; MS_nexp = 0;
+  vbi_proxyd_main_loop();
+  MS_active = 0;
+  V_ASSERT(proxy.should_exit && MS_sched[MS_it] == 0, "main_loop_ran_the_whole_schedule");
+#if MDESTROY
+  { unsigned s0 = C19.send_calls; static const char path[] = "/tmp/c18-no-such-socket";
+    for (i = 0; i < 2; i++) { char *sp = malloc(sizeof path); unsigned b; for (b = 0; b < sizeof path; b++) sp[b] = path[b]; proxy.dev[i].p_sock_path = sp; }
+    for (i = 0; i < NCL; i++) W_gone[i] = 1;
+    vbi_proxyd_destroy();
+    V_ASSERT(!c19_device_is_open() && proxy.p_clnts == NULL && C19.send_calls == s0, "main_shutdown_closes_everything_and_sends_nothing");
+  }
+#endif
   V_END();
 }
